@@ -76,7 +76,7 @@ Definition tls_required (tls : option string) (ns : string) (d : deps) : bool :=
 Definition vs_case (id : Z) (cls : string) (cluster : list (string * cpolicy))
            (secrets : list (string * secret)) (appols logconfs bundles : list string)
            (tls : option string) (wildcard : bool) (v : vserver) (host : string)
-           (obs : list obs_scope) (o_present o_reject : bool) (o_cert : string)
+           (obs : list obs_scope) (o_present o_reject : bool) (o_cert : string) (spiffe : bool)
            (parsed : option (list directive)) : list Z :=
   let d0 := mkDeps secrets appols logconfs bundles false in
   let mssl := vs_ssl_config tls (vs_ns v) d0 wildcard path_of in
@@ -92,7 +92,10 @@ Definition vs_case (id : Z) (cls : string) (cluster : list (string * cpolicy))
       let tls_rej := tls_rejects http host in
       let tls_s := (negb tls_req || tls_rej) &&
                    (match mssl with
-                    | Some s => ssl_reject s || serves_cert http host (ssl_cert s)
+                    | Some s => match served_certificate spiffe s with
+                                | Some c => serves_cert http host c
+                                | None => true
+                                end
                     | None => true
                     end) in
       match zip_scopes http host cls cluster d final_oidc (vs_scopes v) views obs with
@@ -119,7 +122,8 @@ Definition ing_case (id : Z) (secrets : list (string * secret)) (ns host : strin
            (tls : option string) (wildcard : bool)
            (jwt basic : option string) (where_ : list string)
            (o_present o_reject : bool) (o_cert : string)
-           (o_jwt : option string) (o_basic : option string) (parsed : option (list directive)) : list Z :=
+           (o_jwt : option string) (o_basic : option string) (spiffe : bool)
+           (parsed : option (list directive)) : list Z :=
   let d := mkDeps secrets [] [] [] false in
   let mssl := ingress_ssl_config tls ns d wildcard path_of in
   let tls_req := tls_required tls ns d ||
@@ -144,7 +148,10 @@ Definition ing_case (id : Z) (secrets : list (string * secret)) (ns host : strin
       let tls_rej := tls_rejects http host in
       let tls_s := (negb tls_req || tls_rej) &&
                    (match mssl with
-                    | Some s => ssl_reject s || serves_cert http host (ssl_cert s)
+                    | Some s => match served_certificate spiffe s with
+                                | Some c => serves_cert http host c
+                                | None => true
+                                end
                     | None => true
                     end) in
       let enforced := auth_enforced want_jwt want_basic http host where_ in
